@@ -116,6 +116,7 @@ fn main() {
                     c13_timers::Cycle::CmdClearBeforeFirstPoll,
                     c13_timers::Cycle::LegacyClearThenDropCore,
                     c13_timers::Cycle::LegacyAsyncClearedUnawaited,
+                    c13_timers::Cycle::LegacyClearObservedThenClearAgain,
                 ];
                 let timer_stats = &stats;
                 let tcheck = |cycles: &Vec<c13_timers::Cycle>| -> Result<(), String> {
